@@ -17,7 +17,7 @@
       [withdraw_rcpts]   [procH] with Notary, the standard accounts of the stored Alphabet
                          keys (one per key, in order) without. *)
 From Verif Require Import Base.Prelude Base.IntCodec Model.Gas Model.ProxyProc Model.Alphabet
-  Model.NeoFSGas Model.GasWorld Proofs.GasLedger Proofs.GasNeoFS Proofs.GasAlphabet Proofs.GasWorld.
+  Model.NeoFSGas Model.GasWorld Proofs.GasLedger Proofs.GasNeoFS Proofs.GasAlphabet Proofs.GasWorld Proofs.GasNonneg.
 Local Open Scope Z_scope.
 
 (** ** Deposits *)
@@ -319,6 +319,29 @@ Theorem C19_accept_only_chain : forall e c w tok t f a d,
    wexec e c w (OTokenPay tok t f a d) = Fault).
 Proof. exact accept_only_world. Qed.
 Print Assumptions C19_accept_only_chain.
+
+(** ** No GAS is created: native transfers and mints keep every balance >= 0 *)
+
+(** Whatever the callback of the receiver does, whoever signed, whatever the
+    amount and the data: a native GAS transfer that halts leaves every balance
+    non-negative when they were so before (the premise the emit theorems
+    take), and a transfer beyond the sender's balance is refused with [false],
+    the ledger untouched. *)
+Theorem C19_transfer_keeps_nonneg : forall cb g wt l f t a d l' ok ns,
+  nonneg l -> gas_transfer cb g wt l f t a d = Halt (l', ok, ns) -> nonneg l'.
+Proof. exact gas_transfer_nonneg. Qed.
+Print Assumptions C19_transfer_keeps_nonneg.
+
+Theorem C19_overdraw_refused : forall cb g wt l f t a d,
+  hash_len f = true -> hash_len t = true -> gbal l f < a ->
+  gas_transfer cb g wt l f t a d = Halt (l, false, []).
+Proof. exact gas_transfer_overdraw. Qed.
+Print Assumptions C19_overdraw_refused.
+
+Theorem C19_mint_keeps_nonneg : forall cb g l t a l' ns,
+  nonneg l -> 0 <= a -> gas_mint cb g l t a = Halt (l', ns) -> nonneg l'.
+Proof. exact gas_mint_nonneg. Qed.
+Print Assumptions C19_mint_keeps_nonneg.
 
 (** ** Non-vacuity: a concrete deployment and history meeting the premises. *)
 Definition xh (b : N) : bytes := repeat b 20.
